@@ -1636,7 +1636,7 @@ PROPS = {
                 rule=GEN_RULE + "plus Unicode soup with surrogates/NUL and all strings ≤ L over a 10-symbol alphabet; non-trivial = any input"),
     "C02": dict(modules=["C02", "C02Tree", "C02Text", "C02Siblings"], run=run_C02, translators=["parser_table", "grammar", "siblings"], exhaustive=True,
                 rule="all line-kind sequences up to length L through the real Parser (stub matcher) vs the grammar reading (Spec.Sentence) and the table model's events; sampled longer ones; real-text documents; non-trivial = accepted"),
-    "C03": dict(modules=["C03", "C03Tree"], run=run_C03, translators=["parser_table", "dialects"], rule=GEN_RULE + "non-trivial = accepted document"),
+    "C03": dict(modules=["C03", "C03Tree", "C03Parse"], run=run_C03, translators=["parser_table", "dialects"], rule=GEN_RULE + "non-trivial = accepted document"),
     "C04": dict(modules=["C04"], run=run_C04, translators=["parser_table", "dialects"], rule=GEN_RULE + "plus all rows/tag lines ≤ L over the distinguishing classes; non-trivial = any"),
     "C05": dict(modules=["C05"], run=run_C05, translators=["dialects", "dialects_master"], exhaustive=True,
                 rule="complete enumeration dialect × keyword × role × layout through the real matcher; header spellings; one generated document per dialect; non-trivial = matched"),
@@ -1647,7 +1647,7 @@ PROPS = {
                 rule="all (header, template) pairs with templates ≤ L over an adversarial alphabet × 14 headers; synthetic and parsed outlines; non-trivial = substitution changed the text"),
     "C10": dict(modules=["C10"], run=make_compile_run(proj_pickle_types, extra_C10), exhaustive=True,
                 rule="all keyword-type sequences ≤ L over 5 types × background split × {plain, outline} as real text; synthetic ASTs; non-trivial = at least one pickle"),
-    "C11": dict(modules=["C11", "C11Builder", "C11Tree"], run=make_compile_run(proj_pickle_ids, extra_C11), rule=GEN_RULE + "plus sequences of sources through one stream; non-trivial = ids were drawn"),
+    "C11": dict(modules=["C11", "C11Builder", "C11Tree", "C03Parse"], run=make_compile_run(proj_pickle_ids, extra_C11), rule=GEN_RULE + "plus sequences of sources through one stream; non-trivial = ids were drawn"),
     "C12": dict(modules=["C12"], run=run_C12, exhaustive=True,
                 rule="every row string ≤ L over {|, \\, n, space, tab, other} plus Unicode rows; generated ragged/rectangular tables; non-trivial = at least one cell"),
     "C13": dict(modules=["C13"], run=run_C13, translators=["parser_table"], rule="doc strings with content lines from every Gherkin-looking kind, both delimiters, all indentation relations; matcher in the content state; non-trivial = accepted"),
